@@ -5,8 +5,9 @@ Model of `pyyeti.nastran.n2p.formrbe3` (property C14), including the `UM_List` v
 * `Mx α n m`                dense matrices as functions `Fin n → Fin m → α` (definitionally Mathlib's
                             `Matrix (Fin n) (Fin m) α`, so the theorems of `Lemmas/CoordRbe3.lean` are
                             about these very definitions); `fsum`, `Mx.mul`, `hstack`, `vstack`;
-                            `Mx.memo` tabulates (provably the identity, only there so that the `Float`
-                            run does not recompute entries);
+                            `Tab` = the same matrix as data (`Vector` of rows): every model function
+                            returns a `Tab` and reads it back with `Tab.mx` (`(Mx.tab a).mx = a`), so
+                            that the `Float` run computes every entry once;
 * `Rb.toMx`, `gridRowsMx`   the 6x6 block of `rbgeom_uset` rows of one grid (zero for q-set grids);
 * `charLen`, `effWt`        the characteristic length and the scaling of rotational weights;
 * `rbe3Alg`, `rbe3Grid`     `rbw = rb.T * wtdof; rbe3 = solve(rbw @ rb, rbw); (T @ rbe3)[ddof - 1]`;
@@ -27,6 +28,20 @@ open TransOps
 /-- dense `n × m` matrix -/
 abbrev Mx (α : Type) (n m : Nat) := Fin n → Fin m → α
 
+/-- the same as data: `n` rows of `m` entries -/
+abbrev Tab (α : Type) (n m : Nat) := Vector (Vector α m) n
+
+/-- tabulate (every entry is computed once) -/
+def Mx.tab {α : Type} {n m : Nat} (a : Mx α n m) : Tab α n m :=
+  Vector.ofFn fun i => Vector.ofFn fun j => a i j
+
+/-- read a table as a matrix; `(Mx.tab a).mx = a` -/
+def Tab.mx {α : Type} {n m : Nat} (v : Tab α n m) : Mx α n m :=
+  fun i j => (v[i.val]'i.isLt)[j.val]'j.isLt
+
+/-- the external linear solver `scipy.linalg.solve(A, B)` -/
+abbrev Solver (α : Type) := {n k : Nat} → Tab α n n → Tab α n k → Tab α n k
+
 section mx
 variable {α : Type} [Add α] [Mul α] [Neg α] [OfNat α 0] [OfNat α 1]
 
@@ -40,10 +55,6 @@ def add {n m : Nat} (a b : Mx α n m) : Mx α n m := fun i j => a i j + b i j
 def neg {n m : Nat} (a : Mx α n m) : Mx α n m := fun i j => -(a i j)
 def zero {n m : Nat} : Mx α n m := fun _ _ => 0
 def ident {n : Nat} : Mx α n n := fun i j => if i.val = j.val then 1 else 0
-/-- tabulate once (the identity function; see `Mx.memo_eq`) -/
-def memo {n m : Nat} (a : Mx α n m) : Mx α n m :=
-  let v := Vector.ofFn fun i => Vector.ofFn fun j => a i j
-  fun i j => (v[i.val]'i.isLt)[j.val]'j.isLt
 /-- `np.hstack((x, y))` -/
 def hstack {n a b : Nat} (x : Mx α n a) (y : Mx α n b) : Mx α n (a + b) :=
   fun i j => if h : j.val < a then x i ⟨j.val, h⟩ else y i ⟨j.val - a, by omega⟩
@@ -90,32 +101,34 @@ variable {α : Type} [Add α] [Sub α] [Mul α] [Div α] [Neg α] [OfNat α 0] [
 
 /-- `formrbe3` after the DOF bookkeeping: `rb` = rows of `rbgeom_uset(uset, GRID_dep)` at the independent
 DOF, `w` = (scaled) weights, `T` = the six rows of the dependent grid, `dd` = dependent DOF (0-based) -/
-def rbe3Alg {m nd : Nat} (solve : {n k : Nat} → Mx α n n → Mx α n k → Mx α n k)
-    (rb : Mx α m 6) (w : Fin m → α) (T : Mx α 6 6) (dd : Fin nd → Fin 6) : Mx α nd m :=
-  let rbw : Mx α 6 m := Mx.memo fun j i => rb i j * w i   -- rb.T * wtdof
-  let A := Mx.memo (rbw.mul rb)
-  let X := Mx.memo (solve A rbw)
-  (Mx.memo (T.mul X)).selRows dd                           -- (T @ rbe3)[ddof[:, 1] - 1]
+def rbe3Alg {m nd : Nat} (solve : Solver α)
+    (rb : Mx α m 6) (w : Fin m → α) (T : Mx α 6 6) (dd : Fin nd → Fin 6) : Tab α nd m :=
+  let rbt := Mx.tab rb
+  let rbw := Mx.tab fun j i => rbt.mx i j * w i              -- rb.T * wtdof
+  let A := Mx.tab (rbw.mx.mul rbt.mx)
+  let X := solve A rbw
+  let TX := Mx.tab ((Mx.tab T).mx.mul X.mx)
+  Mx.tab (TX.mx.selRows dd)                                  -- (T @ rbe3)[ddof[:, 1] - 1]
 
 /-- `UM_List` inside the independent set: `im` = m-set columns, `inn` = the other columns;
 `rhs = [I, -rbe3[:, notmpv]]`, `rbe3 = solve(rbe3[:, mpv], rhs)`.  Columns: dependent DOF, then `inn`. -/
-def umIndep {nd ni q : Nat} (solve : {n k : Nat} → Mx α n n → Mx α n k → Mx α n k)
-    (R : Mx α nd ni) (im : Fin nd → Fin ni) (inn : Fin q → Fin ni) : Mx α nd (nd + q) :=
-  solve (Mx.memo (R.selCols im)) (Mx.memo (Mx.hstack Mx.ident (Mx.neg (R.selCols inn))))
+def umIndep {nd ni q : Nat} (solve : Solver α)
+    (R : Mx α nd ni) (im : Fin nd → Fin ni) (inn : Fin q → Fin ni) : Tab α nd (nd + q) :=
+  solve (Mx.tab (R.selCols im)) (Mx.tab (Mx.hstack Mx.ident (Mx.neg (R.selCols inn))))
 
 /-- mixed m-set: `dm`/`dn` = dependent rows in / not in the m-set, `im`/`inn` = independent columns in /
 not in the m-set.  `E = solve(C, [I, -D])`, `F = A E + [0, B]`, result `[F; E]`: rows = m-set DOF
 (dependent part first), columns = `dn` DOF then `inn` DOF. -/
-def umMixed {nd ni r c q : Nat} (solve : {n k : Nat} → Mx α n n → Mx α n k → Mx α n k)
+def umMixed {nd ni r c q : Nat} (solve : Solver α)
     (R : Mx α nd ni) (dm : Fin r → Fin nd) (dn : Fin c → Fin nd) (im : Fin c → Fin ni)
-    (inn : Fin q → Fin ni) : Mx α (r + c) (c + q) :=
+    (inn : Fin q → Fin ni) : Tab α (r + c) (c + q) :=
   let A : Mx α r c := (R.selRows dm).selCols im
   let B : Mx α r q := (R.selRows dm).selCols inn
   let C : Mx α c c := (R.selRows dn).selCols im
   let D : Mx α c q := (R.selRows dn).selCols inn
-  let E := Mx.memo (solve C (Mx.hstack Mx.ident (Mx.neg D)))
-  let F := (A.mul E).add (Mx.hstack Mx.zero B)
-  Mx.vstack F E
+  let E := solve (Mx.tab C) (Mx.tab (Mx.hstack Mx.ident (Mx.neg D)))
+  let F := Mx.tab ((A.mul E.mx).add (Mx.hstack Mx.zero B))
+  Mx.tab (Mx.vstack F.mx E.mx)
 
 variable [OfNat α 180] [TransOps α] [LT α] [∀ a b : α, Decidable (a < b)]
 
@@ -143,12 +156,11 @@ def indRows {m : Nat} (ind : Fin m → IndDof α) (ref : V3 α) : Mx α m 6 :=
   fun k j => gridRowsMx (ind k).g ref (ind k).dof j
 
 /-- `formrbe3(uset, GRID_dep, DOF_dep, Ind_List)`: independent DOF in uset order -/
-def rbe3Grid {m nd : Nat} (solve : {n k : Nat} → Mx α n n → Mx α n k → Mx α n k)
+def rbe3Grid {m nd : Nat} (solve : Solver α)
     (grids : List (GridR α)) (dep : GridR α) (dd : Fin nd → Fin 6) (ind : Fin m → IndDof α) :
-    Mx α nd m :=
+    Tab α nd m :=
   let Lc := charLen grids dep
-  rbe3Alg solve (Mx.memo (indRows ind dep.p))
-    (fun k => effWt Lc (ind k).dof (ind k).w) (Mx.memo (gridRowsMx dep dep.p)) dd
+  rbe3Alg solve (indRows ind dep.p) (fun k => effWt Lc (ind k).dof (ind k).w) (gridRowsMx dep dep.p) dd
 
 end alg
 
@@ -218,7 +230,7 @@ section lists
 variable {α : Type} [Add α] [Sub α] [Mul α] [Div α] [Neg α] [OfNat α 0] [OfNat α 1]
 
 /-- apply a plan to the `nd × ni` matrix `R` -/
-def umApply (solve : {n k : Nat} → Mx α n n → Mx α n k → Mx α n k) {nd ni : Nat} (hd : 0 < nd)
+def umApply (solve : Solver α) {nd ni : Nat} (hd : 0 < nd)
     (hi : 0 < ni) (R : Mx α nd ni) (p : UmPlan) : Option (List (List α)) :=
   let reorder (X : List (List α)) : List (List α) :=
     p.rowOrd.map fun i => p.colOrd.map fun j => (X.getD i []).getD j 0
@@ -227,13 +239,13 @@ def umApply (solve : {n k : Nat} → Mx α n n → Mx α n k → Mx α n k) {nd 
   | .dep => some (reorder (R.selRows (idxMap p.dm nd hd)).toLists)
   | .indep =>
     if h : p.im.length = nd then
-      some (reorder (Mx.toLists (umIndep solve R (fun i => idxMap p.im ni hi (Fin.cast h.symm i))
-        (idxMap p.inn ni hi))))
+      some (reorder (umIndep solve R (fun i => idxMap p.im ni hi (Fin.cast h.symm i))
+        (idxMap p.inn ni hi)).mx.toLists)
     else none
   | .mixed =>
     if h : p.dn.length = p.im.length then
-      some (reorder (Mx.toLists (umMixed solve R (idxMap p.dm nd hd)
-        (fun i => idxMap p.dn nd hd (Fin.cast h.symm i)) (idxMap p.im ni hi) (idxMap p.inn ni hi))))
+      some (reorder (umMixed solve R (idxMap p.dm nd hd)
+        (fun i => idxMap p.dn nd hd (Fin.cast h.symm i)) (idxMap p.im ni hi) (idxMap p.inn ni hi)).mx.toLists)
     else none
 
 variable [OfNat α 180] [TransOps α] [LT α] [∀ a b : α, Decidable (a < b)]
@@ -243,7 +255,7 @@ variable [OfNat α 180] [TransOps α] [LT α] [∀ a b : α, Decidable (a < b)]
 `ind` = independent DOF in `Ind_List` order: (uset row, grid, component, weight);
 `um` = uset rows of the m-set DOF in `UM_List` order, if given; `nuset` = number of uset rows.
 `none` where the real code raises. -/
-def formRbe3 (solve : {n k : Nat} → Mx α n n → Mx α n k → Mx α n k)
+def formRbe3 (solve : Solver α)
     (grids : List (GridR α)) (dep : GridR α) (ddofs : List Nat) (dkeys : List Nat)
     (ind : List (Nat × IndDof α)) (um : Option (List Nat)) (nuset : Nat) :
     Option (List (List α)) :=
@@ -255,7 +267,7 @@ def formRbe3 (solve : {n k : Nat} → Mx α n n → Mx α n k → Mx α n k)
   if h : 0 < ni ∧ 0 < nd ∧ ddofs.all (· < 6) then
     let indf : Fin ni → IndDof α := fun k => (inds[k]).2
     let dd : Fin nd → Fin 6 := fun i => ⟨ddofs[i] % 6, Nat.mod_lt _ (by decide)⟩
-    let R := Mx.memo (rbe3Grid solve grids dep dd indf)
+    let R := (rbe3Grid solve grids dep dd indf).mx
     match um with
     | none => some R.toLists
     | some umk =>
@@ -266,9 +278,9 @@ def formRbe3 (solve : {n k : Nat} → Mx α n n → Mx α n k → Mx α n k)
       | some p => umApply solve h.2.1 h.1 R p
   else none
 
-/-- Gaussian elimination with partial pivoting on `Mx` (the `Float` instance of `solve`) -/
-def gaussMx [Inhabited α] {n k : Nat} (A : Mx α n n) (B : Mx α n k) : Mx α n k :=
-  Mx.ofLists (gaussSolve A.toLists B.toLists)
+/-- Gaussian elimination with partial pivoting (the `Float` instance of `solve`) -/
+def gaussTab [Inhabited α] {n k : Nat} (A : Tab α n n) (B : Tab α n k) : Tab α n k :=
+  Mx.tab (Mx.ofLists (gaussSolve A.mx.toLists B.mx.toLists))
 
 end lists
 
